@@ -11,6 +11,10 @@ pool, single-file and every 2-file split) x w:
      labels, for every label and for a systematically derived substring set (every separator-
      delimited fragment of every name, incl. fragments with '(' ')' '.' ':' '{' '-').
 The naming FORMAT is not pinned - only uniqueness, suffix and addresses.
+ (4) histories over ONE debug file in one process: every sequence of <= 4 (thorough 5) operations over {save, assemble
+     with a debug path, replace / copy the file from outside, load, build a breakpoint handler} x five spellings of the
+     path (absolute Path / str / cwd-relative / through `sub/..` / through a symlink): every read returns the table
+     that was written last.
 """
 import itertools
 import re
@@ -151,10 +155,93 @@ def check_program(name, slots, program, w, wd, sieve, stats, files):
             bad('handler label table differs from the saved one', 'identical', 'different')
 
 
+# ------------------------------------------------------------------ histories over one debug file (the table loaded is the table last written)
+SPELLINGS = ('abs', 'str', 'rel', 'dotdot', 'link')
+HIST_OPS = [('save', sp) for sp in SPELLINGS] + [('assemble', 'abs'), ('assemble', 'rel'), ('replace', None), ('copy', None)] + \
+           [('load', sp) for sp in SPELLINGS] + [('handler', 'abs'), ('handler', 'rel')]
+
+
+def spell(d, sp):
+    """five spellings of the same file d/t.fjd (the process's cwd is d)"""
+    from pathlib import Path
+    return {'abs': d / 't.fjd', 'str': str(d / 't.fjd'), 'rel': Path('t.fjd'), 'dotdot': d / 'sub' / '..' / 't.fjd', 'link': d / 'ln.fjd'}[sp]
+
+
+def run_history(seq, d, w=64):
+    """-> list of (step, expected table, observed) for loads that do not return the table last written"""
+    import os
+    import shutil
+    from flipjump.utils.functions import save_debugging_labels, load_debugging_labels
+    from flipjump.interpreter.debugging.breakpoints import get_breakpoint_handler
+    from fjv.asm import assemble_text, quiet
+    d.mkdir(parents=True, exist_ok=True)
+    (d / 'sub').mkdir(exist_ok=True)
+    os.chdir(d)
+    if not (d / 'ln.fjd').is_symlink():
+        os.symlink(d / 't.fjd', d / 'ln.fjd')
+    current, from_assembler = None, False
+    problems = []
+    for k, oi in enumerate(seq):
+        op, sp = HIST_OPS[oi]
+        table = {f'lab{k}': (k + 1) * 2 * w, 'common': (k + 2) * 2 * w, f'ns.m{k}---x': 2 * w * (10 + k)}
+        if op == 'save':
+            save_debugging_labels(spell(d, sp), table)
+            current, from_assembler = table, False
+        elif op == 'assemble':
+            text = ';\n' * (k + 1) + f'lab{k}:\n;lab{k}\ncommon:\n;\n'
+            assemble_text(text, d / 'prog.fjm', d, w=w, version=1, use_stl=False, werror=False, debug_path=spell(d, sp))
+            current, from_assembler = {f'lab{k}': (k + 1) * 2 * w, 'common': (k + 2) * 2 * w}, True
+        elif op in ('replace', 'copy'):
+            save_debugging_labels(d / 'other.fjd', table)
+            (os.replace if op == 'replace' else shutil.copyfile)(d / 'other.fjd', d / 't.fjd')
+            current, from_assembler = table, False
+        else:
+            if current is None:
+                continue
+            try:
+                if op == 'load':
+                    got = load_debugging_labels(spell(d, sp))
+                else:
+                    with quiet():
+                        got = get_breakpoint_handler(spell(d, sp), None, None, None).label_to_address
+            except Exception as e:  # noqa
+                got = f'{type(e).__name__}: {e}'
+            if isinstance(got, dict) and from_assembler:
+                got = {n: a for n, a in got.items() if ':' not in n}  # the assembler adds its own ':start:'-style entries
+            if got != current:
+                problems.append((k, current, got))
+    return problems
+
+
+def work_histories(task):
+    from fjv.enginecheck import scratch
+    _, depth, first = task
+    sieve = Sieve(PROP)
+    stats = {'programs': 0, 'labels': 0, 'instances': 0, 'breakpoint_queries': 0, 'histories': 0, 'history_loads': 0}
+    wd = scratch()
+    n = len(HIST_OPS)
+    for dd in range(1, depth):
+        for rest in itertools.product(range(n), repeat=dd):
+            seq = (first,) + rest
+            kinds = [HIST_OPS[i][0] for i in seq]
+            if kinds[-1] not in ('load', 'handler') or kinds[0] in ('load', 'handler'):
+                continue
+            stats['histories'] += 1
+            stats['history_loads'] += sum(1 for x in kinds if x in ('load', 'handler'))
+            for k, exp, got in run_history(seq, wd / ('h' + '_'.join(map(str, seq)))):
+                sieve.add({'kind': 'a load does not return the table last written to the file', 'class': f'history {kinds}',
+                           'case': {'history': [list(HIST_OPS[i]) for i in seq], 'history_idx': list(seq), 'step': k},
+                           'expected': exp, 'observed': got,
+                           'summary': f'history {[HIST_OPS[i] for i in seq]}: step {k} returned {str(got)[:80]} instead of {str(exp)[:80]}'})
+    return stats, sieve.result(), None
+
+
 def work(task):
     from fjv.enginecheck import scratch
     from fjv import gen_macros
     kind = task[0]
+    if kind == 'histories':
+        return work_histories(task)
     sieve = Sieve(PROP)
     stats = {'programs': 0, 'labels': 0, 'instances': 0, 'breakpoint_queries': 0}
     wd = scratch()
@@ -188,6 +275,17 @@ def replay(args):
     from fjv import gen_macros
     rec = load_replay(args.replay)
     c = rec['case']
+    if 'history_idx' in c:
+        def one(_):
+            return run_history(tuple(c['history_idx']), scratch() / 'replay')
+        probs = list(pmap(one, [0], 1, on_crash='raise'))[0]
+        for k, exp, got in probs:
+            print('PROBLEM step', k, 'expected', exp, 'observed', got)
+        if probs:
+            print(f'VIOLATION property={PROP} replay={args.replay}')
+            return 1
+        print('replay: ok')
+        return 0
     if 'skeleton' not in c:
         print('synthetic case; re-run the check')
         return 1
@@ -213,6 +311,8 @@ def main():
     run = Run(PROP, 'exploration', args)
     widths = (16, 32, 64) if args.tier == 'thorough' else (16, 64)
     tasks = [('synthetic',)] + [('family', args.tier, w, p, 16) for w in widths for p in range(16)]
+    hist_depth = 5 if args.tier == 'thorough' else 4
+    tasks += [('histories', hist_depth, f) for f in range(len(HIST_OPS)) if HIST_OPS[f][0] not in ('load', 'handler')]
     total, samples = {}, []
     for stats, res, sample in pmap(work, tasks, args.jobs):
         for k, v in stats.items():
@@ -231,7 +331,9 @@ def main():
         'samples': samples or [{'note': 'none'}],
         'table_entries_seen': total.get('labels', 0),
         'breakpoint_resolutions_checked': total.get('breakpoint_queries', 0),
-        'bounds': {'programs': 'the C03 skeleton family x all identifier assignments, 1 and 2 files', 'widths': list(widths)},
+        'file_histories': total.get('histories', 0), 'file_history_loads_checked': total.get('history_loads', 0),
+        'bounds': {'programs': 'the C03 skeleton family x all identifier assignments, 1 and 2 files', 'widths': list(widths),
+                   'file_histories': f'every sequence of <= {hist_depth} operations over {len(HIST_OPS)} (save / assemble / replace / copy / load / handler x 5 spellings of one path) that starts with a write and ends with a read'},
         'exhaustive': not vac,
     }
     code = run.finish(cov, assumptions=['the naming format is not pinned: only exact names of top-level labels, the suffix of macro-local names, '
